@@ -187,8 +187,9 @@ class Gen:
             triples = rng.sample(triples, 64)
         for s1, s2, s3 in triples:                               # 3 arguments
             self.add(call_text(name, [self.pick(s1), self.pick(s2), self.pick(s3)]), canon, kind, 3, (s1, s2, s3))
-            if thorough and rng.random() < 0.35:
-                self.add(call_text(name, [self.pick(s1), self.pick(s2), self.pick(s3)]), canon, kind, 3, (s1, s2, s3))
+            if thorough:
+                for _ in range(3):      # more value variants of the same shape triple
+                    self.add(call_text(name, [self.pick(s1), self.pick(s2), self.pick(s3)]), canon, kind, 3, (s1, s2, s3))
         # pipe form and case variants (sampled)
         for _ in range(4 if not thorough else 40):
             k = rng.choice([1, 2, 3])
@@ -289,8 +290,8 @@ class Gen:
             ("fixed:b0e5238", "{{#expr:1e3000000}}", None),
             ("fixed:b0e5238", "{{#expr:2e-3000000}}", None),
             ("fixed:b0e5238", "{{#ifexpr:1E3000000|a|b}}", None),
-            ("round-negative-digits", "{{#expr:7 round -3000000}}", None),
-            ("round-negative-digits", "{{#expr:99999999999999999999 round -3000000}}", None),
+            ("round-negative-digits", "{{#expr:7 round -6000000}}", None),
+            ("round-negative-digits", "{{#expr:99999999999999999999 round -6000000}}", None),
             ("roman-out-of-range", "{{#time:xrY|5000-01-01}}", None),
             ("roman-out-of-range", "{{#time:xrU|2000-01-01}}", None),
             ("ifexist", "{{#ifexist:a|b|c}}", None),
@@ -344,13 +345,25 @@ class Gen:
         db = {"t": "{{{1}}}", "big": [["y", 300000]]}
         for tag, text, parts in D:
             needs_big = (text or "").find("{{big}}") >= 0
-            self.add(text, "DIRECTED:" + tag, "directed", -1, (), db=db if needs_big else DB_DEFAULT, form="directed",
+            self.add(text, directed_canon(tag, text, parts), "directed", -1, (), db=db if needs_big else DB_DEFAULT, form="directed",
                      directed=tag, text_rle=parts)
         # the same small probes on another site (aliases of #if/#switch build the parser's regex)
         for lang in ("fr", "ja", "de"):
             for tag, text, parts in D:
                 if text is not None and "{{big}}" not in text and tag in ("switch-numeric-tie", "switch-bare-default", "misc", "prefixes", "odd-title"):
-                    self.add(text, "DIRECTED:" + tag, "directed", -1, (), lang=lang, form="directed", directed=tag)
+                    self.add(text, directed_canon(tag, text, parts), "directed", -1, (), lang=lang, form="directed", directed=tag)
+
+
+def directed_canon(tag, text, parts):
+    """fingerprint name of a directed probe: the (first) function it calls, so that it shares its fingerprint with
+    the systematic calls of that function; probes made of several calls keep their tag"""
+    t = text if text is not None else "".join(s for s, _k in parts)
+    if t.count("{{") - t.count("{{{") * 1 > 1 and tag in ("odd-title", "prefixes", "misc"):
+        return "DIRECTED:" + tag
+    m = re.match(r"\{\{\s*([^:|{}]+)", t)
+    if not m:
+        return "DIRECTED:" + tag
+    return m.group(1).strip().upper()
 
 
 def generate(rng, tier, src):
@@ -469,10 +482,8 @@ def limits(n):
 def classify(c, r, n):
     """the property's oracle on one result -> None | (fingerprint, what)"""
     name = c["canon"]
-    if name.startswith("DIRECTED:"):
-        name = name[len("DIRECTED:"):]
-    if c["fkind"] == "dummy":
-        name = "DUMMY-RESOLVER"
+    if c["fkind"] == "dummy" or "get_dummy.<locals>.resolve" in r.get("exc", ""):
+        name = "DUMMY-RESOLVER"         # one root cause for all names installed by _populate_dummy
     oc = r["outcome"]
     if oc == "exc":
         et = r["exc"].split(":", 1)[0]
@@ -484,15 +495,15 @@ def classify(c, r, n):
     if oc == "crash":
         return "crash:%s" % name, "the interpreter died while expanding: " + r["exc"]
     if oc == "timeout":
-        return "time:%s:%s" % (name, ",".join(c["shapes"])), "no result: " + r["exc"]
+        return "time:%s" % name, "no result: " + r["exc"]
     if oc == "nonstr":
         return "nonstr:%s" % name, "expandTemplates " + r["exc"]
     cpu_lim, out_lim = limits(n)
     if r["outlen"] > out_lim:
-        return ("size:%s:%s" % (name, ",".join(c["shapes"])),
+        return ("size:%s" % name,
                 "output of %d characters from %d characters of input (limit %d)" % (r["outlen"], n, out_lim))
     if r["cpu"] > cpu_lim:
-        return ("time:%s:%s" % (name, ",".join(c["shapes"])),
+        return ("time:%s" % name,
                 "%.2fs CPU for %d characters of input (limit %.2fs)" % (r["cpu"], n, cpu_lim))
     return None
 
@@ -546,7 +557,7 @@ def run(run, src):
             continue
         _account(run, c, r, n, v, dist, covered)
         if r["outcome"] == "ok":
-            if n >= 1000 and r["cpu"] / n > max_cpu_ratio[0]:
+            if n >= 20000 and r["cpu"] / n > max_cpu_ratio[0]:
                 max_cpu_ratio = (r["cpu"] / n, short(c))
             if r["outlen"] / max(n, 1) > max_out_ratio[0]:
                 max_out_ratio = (r["outlen"] / max(n, 1), short(c))
@@ -577,7 +588,7 @@ def run(run, src):
 
     distribution = {
         "search_calls": len(calls),
-        "search_arity": {str(k): v for k, v in sorted(dist["arity"].items())},
+        "search_arity": {str(k): v for k, v in sorted(dist["arity"].items(), key=lambda kv: str(kv[0]))},
         "search_shapes": top(dist["shape"]),
         "search_outcomes": top(dist["outcome"]),
         "search_function_kinds": top(dist["kind"]),
@@ -589,7 +600,7 @@ def run(run, src):
                          "unimplemented site alias forms": len(unimpl)},
         "calibration": {"cpu_limit": "%.2fs + %.0e s/char" % (CPU_BASE, CPU_PER_CHAR), "output_limit": "%d + %d/char" % (OUT_BASE, OUT_PER_CHAR),
                         "max_cpu_seconds_seen": round(max_cpu[0], 4), "max_cpu_call": max_cpu[1],
-                        "max_cpu_per_char_seen_for_inputs_ge_1000": float("%.3g" % max_cpu_ratio[0]), "max_cpu_per_char_call": max_cpu_ratio[1],
+                        "max_cpu_per_char_seen_for_inputs_ge_20000": float("%.3g" % max_cpu_ratio[0]), "max_cpu_per_char_call": max_cpu_ratio[1],
                         "max_output_per_input_char_seen": round(max_out_ratio[0], 3), "max_output_call": max_out_ratio[1]},
     }
     return {
@@ -632,7 +643,8 @@ def _account(run, c, r, n, verdict, dist, covered):
     if verdict is not None:
         fp, what = verdict
         run.hit(fp, "%s  [site %s]  %s" % (short(c), c["lang"], what), replay_obj(c, fp))
-    elif c["arity"] in (2, 3) and r["outcome"] == "ok" and r["outlen"] and len(run.samples) < 6 and c["fkind"] in ("magic", "node", "alias"):
+    elif (c["arity"] in (2, 3) and r["outcome"] == "ok" and r["outlen"] and len(run.samples) < 6 and c["fkind"] in ("magic", "node", "alias")
+          and c["id"] % 997 == 0):
         run.sample({"site": c["lang"], "wikitext": short(c), "output": r.get("out", "")[:80], "cpu_s": r["cpu"]})
 
 
